@@ -202,7 +202,28 @@ fn sentence_with(
 
 pub fn run_case(case: &mut Case) {
     let mut rng = case.rng(0);
-    let spec = gen_options(&mut rng, opts());
+    let mut spec = gen_options(&mut rng, opts());
+    // some help texts are built with the Doc API from several tokens, with a paragraph break in
+    // a token that is not the last one (the first paragraph is what the item lists show)
+    fn rich_help(s: &mut Spec, rng: &mut Rng) {
+        match s {
+            Spec::Item(i) => {
+                if let Some(h) = &mut i.help {
+                    if rng.chance(1, 6) {
+                        *h = format!("{}\n\nsecond paragraph {{{{lit:x{}}}}} tail{}", h, i.id, i.id);
+                    }
+                }
+            }
+            Spec::Wrap { inner, .. } => rich_help(inner, rng),
+            Spec::Seq(xs) | Spec::Alt(xs) | Spec::Adj(xs) => {
+                xs.iter_mut().for_each(|x| rich_help(x, rng))
+            }
+            Spec::Cmd(c) => rich_help(&mut c.opts.root, rng),
+            _ => {}
+        }
+    }
+    rich_help(&mut spec.root, &mut rng);
+    let first_par = |h: &str| h.split("\n\n").next().unwrap_or("").to_string();
     let h = spec.hash64();
     case.rep.definition(h);
     case.say(&format!("definition: {}", spec.pretty()));
@@ -300,6 +321,7 @@ pub fn run_case(case: &mut Case) {
             match line {
                 Some(l) => {
                     if let Some(hh) = &it.help {
+                        let hh = &first_par(hh);
                         if !mentions_name(&l.help, hh.as_str()) {
                             case.rep.violation(
                                 "item-help-missing",
@@ -491,6 +513,7 @@ pub fn run_case(case: &mut Case) {
             }
             if it.hidden {
                 if let Some(hh) = &it.help {
+                    let hh = &first_par(hh);
                     if mentions_name(&text, hh.as_str()) {
                         case.rep.violation(
                             "hidden-item-listed",
